@@ -114,12 +114,18 @@ def byte_eq(x, y):
         return TRUE if x == y else FALSE
     if isinstance(y, int):
         d = DOMAINS.get(x.get_id())
-        if d is not None and y not in d:
-            return FALSE
+        if d is not None:
+            if y not in d:
+                return FALSE
+            if len(d) == 1:
+                return TRUE
     elif isinstance(x, int):
         d = DOMAINS.get(y.get_id())
-        if d is not None and x not in d:
-            return FALSE
+        if d is not None:
+            if x not in d:
+                return FALSE
+            if len(d) == 1:
+                return TRUE
     xz = z3.BitVecVal(x, 8) if isinstance(x, int) else x
     yz = z3.BitVecVal(y, 8) if isinstance(y, int) else y
     return mk_bool(z3.simplify(xz == yz))
